@@ -3,16 +3,21 @@ confirm / minimise / replay violations -> evidence -> exit code.
 
 A property module (``sim.props.cXX``) provides
 
-  ID, PRELOAD, DESCRIPTION (dict of static evidence text)
+  ID, PRELOAD, BUDGET_S, DESCRIPTION (static evidence text, required probes)
   plan(seed, tier) -> list[unit]           unit = {"key": {...}, "specs": [spec, ...], "wall_s": float}
   execute(arg) -> {"runs": [runresult, ...]}        runs in a forked child;  arg = {"specs": [...]}
   shrink_candidates(spec) -> list[spec]    one-step simplifications, best first
-  pinned(entries) -> list[(entry, key, spec)]   known-finding / fixed regression inputs (optional)
-  match_known(spec, violation, entries) -> entry | None         (optional)
+optional extension points
+  search(pool, tier, seed, deadline, agg)  replaces plan/execute for oracles that compare *across* processes (C11)
+  eval_many(pool, key, specs) -> [runresult|None]   how one spec is decided (default: one forked child)
+  pinned(entries) -> [(entry, key, spec)]  known-finding / fixed regression inputs
+  match_known(spec, violation, entries) -> entry | None
 
 runresult = {"verdict": "ok" | "violation" | "skip", "violation": {"class", "message", ...},
-             "digest", "line_digest", "steps", "faults": {...}, "probes": {...},
-             "states": [...], "nontrivial": bool, "spec": spec-with-schedule (violations only), "sample": ...}
+             "digest", "line_digest", "steps", "faults": {...}, "probes": {...}, "states": [...],
+             "nontrivial": bool, "log_digest", "spec": spec-with-schedule (violations only), "sample": ...}
+
+Exit codes: 0 held on everything explored (KNOWN-FINDING lines allowed); 1 VIOLATION; 2 HARNESS-ERROR.
 """
 from __future__ import annotations
 
@@ -25,7 +30,7 @@ from collections import Counter
 from typing import Any, Optional
 
 from .driver import Pool
-from .util import VERIF_DIR, digest, env_float, env_int, jdump
+from .util import VERIF_DIR, digest, env_float, env_int
 
 EXIT_OK, EXIT_VIOLATION, EXIT_HARNESS = 0, 1, 2
 
@@ -43,15 +48,28 @@ def load_known(prop_id: str) -> list[dict]:
     return [e for e in data.get("findings", []) if e.get("property") == prop_id]
 
 
-def _job(mod, key: dict, specs: list[dict], wall_s: float) -> dict:
-    return {"key": key, "module": mod.__name__, "fn": "execute", "arg": {"specs": specs}, "wall_s": wall_s}
+def job(mod, key: dict, specs: list[dict], wall_s: float, fn: str = "execute") -> dict:
+    return {"key": key, "module": mod.__name__, "fn": fn, "arg": {"specs": specs}, "wall_s": wall_s}
 
 
-def _single(pool: Pool, mod, key: dict, spec: dict, wall_s: float = 120.0) -> dict:
-    r = pool.run([_job(mod, key, [spec], wall_s)])[0]
-    if r is None or not r.get("ok"):
-        raise Harness(f"single run failed: {r}\n{pool.logs()}")
-    return r["result"]["runs"][0]
+def eval_many(pool: Pool, mod, key: dict, specs: list[dict]) -> list[Optional[dict]]:
+    if hasattr(mod, "eval_many"):
+        return mod.eval_many(pool, key, specs)
+    res = pool.run([job(mod, key, [s], 180.0) for s in specs])
+    out: list[Optional[dict]] = []
+    for r in res:
+        if r is None or not r.get("ok"):
+            out.append(None)
+        else:
+            out.append(r["result"]["runs"][0])
+    return out
+
+
+def single(pool: Pool, mod, key: dict, spec: dict) -> dict:
+    rr = eval_many(pool, mod, key, [spec])[0]
+    if rr is None:
+        raise Harness(f"single run failed\n{pool.logs()[-3000:]}")
+    return rr
 
 
 def minimise(pool: Pool, mod, key: dict, spec: dict, vclass: str, budget_s: float) -> tuple[dict, dict]:
@@ -70,16 +88,13 @@ def minimise(pool: Pool, mod, key: dict, spec: dict, vclass: str, budget_s: floa
         for s in range(0, len(cands), B):
             if time.monotonic() > t_end:
                 break
-            batch = cands[s : s + B]
-            res = pool.run([_job(mod, key, [c], 120.0) for c in batch])
+            batch = cands[s: s + B]
+            res = eval_many(pool, mod, key, batch)
             evals += len(batch)
             hit = None
-            for c, r in zip(batch, res):
-                if r is None or not r.get("ok"):
-                    continue
-                rr = r["result"]["runs"][0]
-                if rr.get("verdict") == "violation" and rr["violation"]["class"] == vclass:
-                    hit = c  # keep the candidate itself (not the re-recorded schedule): guarantees progress
+            for c, rr in zip(batch, res):
+                if rr is not None and rr.get("verdict") == "violation" and rr["violation"]["class"] == vclass:
+                    hit = c  # keep the candidate itself (not a re-recorded schedule): guarantees progress
                     break
             if hit is not None:
                 cur = hit
@@ -95,9 +110,7 @@ def write_replay(prop_id: str, key: dict, spec: dict, violation: dict, log_diges
     with open(path, "w") as f:
         json.dump(
             {"property": prop_id, "world": key, "spec": spec, "violation": violation, "log_digest": log_digest, **(extra or {})},
-            f,
-            indent=1,
-            sort_keys=True,
+            f, indent=1, sort_keys=True,
         )
     return path
 
@@ -105,8 +118,8 @@ def write_replay(prop_id: str, key: dict, spec: dict, violation: dict, log_diges
 def replay_file(mod, path: str) -> int:
     with open(path) as f:
         rp = json.load(f)
-    with Pool(workers=1, preload=mod.PRELOAD) as pool:
-        rr = _single(pool, mod, rp["world"], rp["spec"])
+    with Pool(workers=2, preload=mod.PRELOAD) as pool:
+        rr = single(pool, mod, rp["world"], rp["spec"])
     want = rp.get("violation", {}).get("class")
     if rr.get("verdict") == "violation":
         same = rr["violation"]["class"] == want
@@ -119,107 +132,131 @@ def replay_file(mod, path: str) -> int:
     return EXIT_OK
 
 
+class Agg:
+    def __init__(self) -> None:
+        self.runs = 0
+        self.skipped = 0
+        self.steps = 0
+        self.faults: Counter = Counter()
+        self.probes: Counter = Counter()
+        self.extra: Counter = Counter()
+        self.digests: set = set()
+        self.line_digests: set = set()
+        self.nontrivial: set = set()
+        self.states: set = set()
+        self.violations: list[tuple[Any, dict, dict, dict]] = []  # (order, key, spec, runresult)
+        self.harness: list = []
+        self.samples: list = []
+        self.logdig: dict = {}
+        self.planned = 0
+
+    def add(self, order: Any, key: dict, rr: dict) -> None:
+        if rr.get("verdict") == "skip":
+            self.skipped += 1
+            return
+        self.runs += 1
+        self.steps += rr.get("steps", 0)
+        self.faults.update(rr.get("faults", {}))
+        self.probes.update(rr.get("probes", {}))
+        self.extra.update(rr.get("extra", {}))
+        d = rr.get("digest")
+        if d:
+            self.digests.add(d)
+            if rr.get("nontrivial"):
+                self.nontrivial.add(d)
+        ld = rr.get("line_digest")
+        if ld:
+            self.line_digests.add(ld)
+        for s in rr.get("states", ()):
+            self.states.add(s)
+        if rr.get("sample") is not None and len(self.samples) < 4:
+            self.samples.append(rr["sample"])
+        if rr.get("verdict") == "violation":
+            self.violations.append((order, key, rr.get("spec"), rr))
+
+
+def generic_search(pool: Pool, mod, tier: str, seed: int, deadline: float, agg: Agg) -> None:
+    units = mod.plan(seed, tier)
+    jobs = [job(mod, u["key"], u["specs"], u.get("wall_s", 180.0)) for u in units]
+    agg.planned = sum(len(u["specs"]) for u in units)
+
+    def on_result(i: int, r: dict) -> None:
+        if not r.get("ok"):
+            agg.harness.append((i, r))
+            return
+        agg.logdig[i] = [rr.get("log_digest", "") for rr in r["result"]["runs"]]
+        for k, rr in enumerate(r["result"]["runs"]):
+            agg.add((i, k), units[i]["key"], rr)
+
+    pool.run(jobs, deadline=deadline, on_result=on_result,
+             stop_when=lambda: len(agg.violations) >= 8 or len(agg.harness) > 0)
+
+
 def run_check(mod, tier: str, seed: int) -> int:
     t0 = time.monotonic()
     budget = env_float("VERIF_BUDGET_S", mod.BUDGET_S[tier])
     deadline = t0 + budget
     known = load_known(mod.ID)
-    units = mod.plan(seed, tier)
-    jobs = [_job(mod, u["key"], u["specs"], u.get("wall_s", 120.0)) for u in units]
-
-    agg: dict[str, Any] = {
-        "runs": 0, "skipped": 0, "steps": 0, "faults": Counter(), "probes": Counter(),
-        "digests": set(), "line_digests": set(), "nontrivial": set(), "states": set(),
-        "violations": [], "harness": [], "samples": [], "extra": Counter(), "logdig": {},
-    }
-
-    def on_result(i: int, r: dict) -> None:
-        if not r.get("ok"):
-            agg["harness"].append((i, r))
-            return
-        agg["logdig"][i] = [rr.get("log_digest", "") for rr in r["result"]["runs"]]
-        for rr in r["result"]["runs"]:
-            if rr.get("verdict") == "skip":
-                agg["skipped"] += 1
-                continue
-            agg["runs"] += 1
-            agg["steps"] += rr.get("steps", 0)
-            agg["faults"].update(rr.get("faults", {}))
-            agg["probes"].update(rr.get("probes", {}))
-            agg["extra"].update(rr.get("extra", {}))
-            d = rr.get("digest")
-            if d:
-                agg["digests"].add(d)
-                if rr.get("nontrivial"):
-                    agg["nontrivial"].add(d)
-            ld = rr.get("line_digest")
-            if ld:
-                agg["line_digests"].add(ld)
-            for s in rr.get("states", ()):
-                agg["states"].add(s)
-            if rr.get("sample") is not None and len(agg["samples"]) < 4:
-                agg["samples"].append(rr["sample"])
-            if rr.get("verdict") == "violation":
-                agg["violations"].append((i, rr))
-
+    agg = Agg()
     exit_code = EXIT_OK
-    out_lines: list[str] = []
     with Pool(preload=mod.PRELOAD) as pool:
-        # 1. pinned regression inputs: known findings and fixed defects
+        # 1. pinned regression inputs: open known findings and repaired ("fixed") defects
         kf_lines: list[str] = []
-        pinned_viol: list[tuple[dict, dict, dict, dict]] = []
+        pinned_viol: list[tuple[dict, dict, dict]] = []
         pinned_n = 0
-        if True:
-            if hasattr(mod, "pinned"):
-                pj = mod.pinned(known)
-            else:  # default: entries that carry an executable spec
-                pj = [(e, e.get("world", {"hash_seed": 0}), e["spec"]) for e in known if "spec" in e]
-            res = pool.run([_job(mod, key, [spec], 180.0) for (_e, key, spec) in pj])
-            for (entry, key, spec), r in zip(pj, res):
-                pinned_n += 1
-                if r is None or not r.get("ok"):
-                    agg["harness"].append((-1, r))
-                    continue
-                rr = r["result"]["runs"][0]
-                if rr.get("verdict") == "violation":
-                    if entry.get("status") == "open":
-                        kf_lines.append(f"KNOWN-FINDING: property={mod.ID} {entry['id']}: {entry['what']}")
-                    else:
-                        pinned_viol.append((entry, key, rr.get("spec") or spec, rr))
-                elif entry.get("status") == "open":
-                    kf_lines.append(f"NOTE: known finding {entry['id']} of {mod.ID} no longer reproduces on this tree")
+        if hasattr(mod, "pinned"):
+            pj = mod.pinned(known)
+        else:  # default: entries that carry an executable spec
+            pj = [(e, e.get("world", {"hash_seed": 0}), e["spec"]) for e in known if "spec" in e]
+        pres: list[Optional[dict]] = [None] * len(pj)
+        groups: dict[str, list[int]] = {}
+        for i, (_e, key, _s) in enumerate(pj):
+            groups.setdefault(json.dumps(key, sort_keys=True), []).append(i)
+        for idxs in groups.values():
+            for i, rr in zip(idxs, eval_many(pool, mod, pj[idxs[0]][1], [pj[i][2] for i in idxs])):
+                pres[i] = rr
+        for (entry, key, spec), rr in zip(pj, pres):
+            pinned_n += 1
+            if rr is None:
+                agg.harness.append((-1, {"error": "pinned input failed to run", "entry": entry["id"]}))
+                continue
+            if rr.get("verdict") == "violation":
+                if entry.get("status") == "open":
+                    kf_lines.append(f"KNOWN-FINDING: property={mod.ID} {entry['id']}: {entry['what']}")
+                else:
+                    pinned_viol.append((key, rr.get("spec") or spec, rr))
+            elif entry.get("status") == "open":
+                kf_lines.append(f"NOTE: known finding {entry['id']} of {mod.ID} no longer reproduces on this tree")
         # 2. the search
-        pool.run(jobs, deadline=deadline, on_result=on_result, stop_when=lambda: len(agg["violations"]) >= 8 or len(agg["harness"]) > 0)
-        planned_runs = sum(len(u["specs"]) for u in units)
+        if hasattr(mod, "search"):
+            mod.search(pool, tier, seed, deadline, agg)
+        else:
+            generic_search(pool, mod, tier, seed, deadline, agg)
 
-        if agg["harness"]:
-            i, r = agg["harness"][0]
+        if agg.harness:
+            i, r = agg.harness[0]
             print(f"HARNESS-ERROR property={mod.ID} job={i}: {json.dumps(r)[:3000]}")
             print(pool.logs()[-6000:])
             exit_code = EXIT_HARNESS
         else:
             for l in kf_lines:
                 print(l)
-            # 3. violations: confirm in a fresh fork, minimise, replay, report
+            # 3. violations: confirm in a fresh fork, minimise, write + replay the file, report
             reported: set[str] = set()
-            cand: list[tuple[dict, dict, dict]] = []
-            for entry, key, spec, rr in pinned_viol:
-                cand.append((key, spec, rr))
-            for i, rr in sorted(agg["violations"], key=lambda x: x[0]):
-                cand.append((units[i]["key"], rr["spec"], rr))
+            cand = list(pinned_viol) + [(k, s, rr) for (_o, k, s, rr) in sorted(agg.violations, key=lambda x: x[0])]
             for key, spec, rr in cand:
                 vclass = rr["violation"]["class"]
                 if vclass in reported:
                     continue
-                again = _single(pool, mod, key, spec)
+                reported.add(vclass)
+                again = single(pool, mod, key, spec)
                 if again.get("verdict") != "violation" or again["violation"]["class"] != vclass:
-                    print(f"HARNESS-ERROR property={mod.ID} nonreplayable violation class={vclass}: {rr['violation'].get('message','')[:500]}")
+                    print(f"HARNESS-ERROR property={mod.ID} nonreplayable violation class={vclass}: {rr['violation'].get('message', '')[:800]}")
                     exit_code = EXIT_HARNESS
-                    reported.add(vclass)
                     continue
                 spec = again.get("spec") or spec
                 mspec, minfo = minimise(pool, mod, key, spec, vclass, env_float("VERIF_MIN_BUDGET_S", 60.0))
-                final = _single(pool, mod, key, mspec)
+                final = single(pool, mod, key, mspec)
                 if final.get("verdict") != "violation" or final["violation"]["class"] != vclass:
                     mspec, final = spec, again
                     minfo["fallback_unminimised"] = True
@@ -227,82 +264,76 @@ def run_check(mod, tier: str, seed: int) -> int:
                 ke = mod.match_known(mspec, final["violation"], known) if hasattr(mod, "match_known") else None
                 if ke is not None and ke.get("status") == "open":
                     print(f"KNOWN-FINDING: property={mod.ID} {ke['id']}: {ke['what']} (re-derived by the search)")
-                    reported.add(vclass)
                     continue
                 tag = f"{seed}-{vclass}"
-                path = write_replay(mod.ID, key, mspec, final["violation"], final.get("log_digest", ""), tag, {"minimise": minfo, "verif_seed": seed, "tier": tier})
+                path = write_replay(mod.ID, key, mspec, final["violation"], final.get("log_digest", ""), tag,
+                                    {"minimise": minfo, "verif_seed": seed, "tier": tier})
                 # replay from the file in a fresh zygote: must fail the same way with the same log
-                with Pool(workers=1, preload=mod.PRELOAD) as p2:
+                with Pool(workers=2, preload=mod.PRELOAD) as p2:
                     with open(path) as f:
                         rp = json.load(f)
-                    chk = _single(p2, mod, rp["world"], rp["spec"])
+                    chk = single(p2, mod, rp["world"], rp["spec"])
                 if chk.get("verdict") != "violation" or chk["violation"]["class"] != vclass or chk.get("log_digest") != final.get("log_digest"):
                     print(f"HARNESS-ERROR property={mod.ID} replay file does not reproduce exactly: {path}")
                     exit_code = EXIT_HARNESS
-                    reported.add(vclass)
                     continue
-                print(f"violation class={vclass}: {final['violation'].get('message','')[:1500]}")
+                print(f"violation class={vclass}: {final['violation'].get('message', '')[:1500]}")
                 if minfo.get("budget_exhausted"):
                     print("  (minimisation budget exhausted; replay file may not be minimal)")
                 print(f"VIOLATION property={mod.ID} replay={path}")
-                reported.add(vclass)
                 if exit_code == EXIT_OK:
                     exit_code = EXIT_VIOLATION
         zstarts = pool.zygote_starts
 
     wall = time.monotonic() - t0
-    nviol = len(agg["violations"])
+    not_run = max(0, agg.planned - agg.runs - agg.skipped)
     cov = {
-        "evaluations": agg["runs"] + pinned_n,
-        "distinct_nontrivial": len(agg["nontrivial"]),
+        "evaluations": agg.runs + pinned_n,
+        "distinct_nontrivial": len(agg.nontrivial),
         "rule": mod.DESCRIPTION["rule"],
-        "samples": agg["samples"] or [{"note": "no sample recorded"}],
-        "simulated_runs": agg["runs"],
-        "planned_runs": planned_runs,
-        "runs_not_executed_budget": max(0, planned_runs - agg["runs"] - agg["skipped"]),
-        "skipped_by_generator": agg["skipped"],
+        "samples": agg.samples or [{"note": "no sample recorded"}],
+        "simulated_runs": agg.runs,
+        "planned_runs": agg.planned,
+        "runs_not_executed_budget": not_run,
+        "skipped_by_generator": agg.skipped,
         "pinned_regression_inputs": pinned_n,
-        "runs_per_hour": int(agg["runs"] / wall * 3600) if wall > 0 else 0,
+        "runs_per_hour": int(agg.runs / wall * 3600) if wall > 0 else 0,
         "seeds": {"VERIF_SEED": seed, "per_run_seeds": "derived from VERIF_SEED, one per simulated run (see rule)"},
-        "logical_steps_yield_points": agg["steps"],
+        "logical_steps_yield_points": agg.steps,
         "simulated_time": "not applicable: sqllineage has no clock, timer or timeout; progress is counted in logical steps (yield points)",
-        "faults_fired": dict(sorted(agg["faults"].items())),
-        "probes_hit": dict(sorted(agg["probes"].items())),
-        "distinct_operation_level_histories": len(agg["digests"]),
-        "distinct_line_level_interleavings": len(agg["line_digests"]),
-        "distinct_model_states": len(agg["states"]),
-        "other_counters": dict(sorted(agg["extra"].items())),
+        "faults_fired": dict(sorted(agg.faults.items())),
+        "probes_hit": dict(sorted(agg.probes.items())),
+        "distinct_operation_level_histories": len(agg.digests),
+        "distinct_line_level_interleavings": len(agg.line_digests),
+        "distinct_model_states": len(agg.states),
+        "other_counters": dict(sorted(agg.extra.items())),
         "zygotes_started": zstarts,
-        "batch_log_digest": digest(sorted(agg["logdig"].items())),
+        "batch_log_digest": digest(sorted((str(k), v) for k, v in agg.logdig.items())),
         "real_code": mod.DESCRIPTION["real_code"],
         "stubs": mod.DESCRIPTION["stubs"],
         "exhaustive": False,
     }
     ev = {
-        "property_id": mod.ID,
-        "tier": tier,
-        "seed": seed,
-        "level": "exploration",
-        "coverage": cov,
-        "assumptions": mod.DESCRIPTION["assumptions"],
-        "wall_s": round(wall, 2),
-        "violations": nviol,
+        "property_id": mod.ID, "tier": tier, "seed": seed, "level": "exploration", "coverage": cov,
+        "assumptions": mod.DESCRIPTION["assumptions"], "wall_s": round(wall, 2), "violations": len(agg.violations),
     }
     if exit_code != EXIT_HARNESS:
         os.makedirs(os.path.join(VERIF_DIR, "evidence"), exist_ok=True)
         with open(os.path.join(VERIF_DIR, "evidence", f"{mod.ID}.json"), "w") as f:
             json.dump(ev, f, indent=1, sort_keys=True)
-    # non-vacuity: required probes must have fired
-    missing = [p for p in mod.DESCRIPTION.get("required_probes", {}).get(tier, []) if agg["probes"].get(p, 0) == 0]
     print(
-        f"[{mod.ID}] tier={tier} seed={seed} runs={agg['runs']}/{planned_runs} pinned={pinned_n} steps={agg['steps']} "
-        f"distinct={len(agg['digests'])} nontrivial={len(agg['nontrivial'])} line_interleavings={len(agg['line_digests'])} "
-        f"states={len(agg['states'])} violations={nviol} wall={wall:.1f}s"
+        f"[{mod.ID}] tier={tier} seed={seed} runs={agg.runs}/{agg.planned} pinned={pinned_n} steps={agg.steps} "
+        f"distinct={len(agg.digests)} nontrivial={len(agg.nontrivial)} line_interleavings={len(agg.line_digests)} "
+        f"states={len(agg.states)} violations={len(agg.violations)} wall={wall:.1f}s"
     )
     print(f"[{mod.ID}] batch_log_digest={cov['batch_log_digest'][:32]}")
-    print(f"[{mod.ID}] faults={dict(sorted(agg['faults'].items()))}")
-    print(f"[{mod.ID}] probes={dict(sorted(agg['probes'].items()))}")
-    if missing and exit_code == EXIT_OK and cov["runs_not_executed_budget"] == 0:
+    print(f"[{mod.ID}] faults={dict(sorted(agg.faults.items()))}")
+    print(f"[{mod.ID}] probes={dict(sorted(agg.probes.items()))}")
+    if agg.extra:
+        print(f"[{mod.ID}] other={dict(sorted(agg.extra.items()))}")
+    # non-vacuity: required probes must have fired (only judged when the whole plan ran)
+    missing = [p for p in mod.DESCRIPTION.get("required_probes", {}).get(tier, []) if agg.probes.get(p, 0) == 0]
+    if missing and exit_code == EXIT_OK and not_run == 0:
         print(f"HARNESS-ERROR property={mod.ID} vacuous run: probes never hit: {missing}")
         exit_code = EXIT_HARNESS
     return exit_code
